@@ -2654,6 +2654,7 @@ func (s *Server) serveConnCounted(c net.Conn, countConcurrency bool) error {
 		// Remember this before the handler runs: after a timeout the request
 		// stays behind with the handler that is still using it.
 		isHeadRequest := ctx.IsHead()
+		isHTTP11Request := ctx.Request.Header.IsHTTP11()
 		if continueReadingRequest {
 			s.Handler(ctx)
 		}
@@ -2703,7 +2704,7 @@ func (s *Server) serveConnCounted(c net.Conn, countConcurrency bool) error {
 			(s.CloseOnShutdown && s.stop.Load() == 1)
 		if connectionClose {
 			ctx.Response.Header.SetConnectionClose()
-		} else if !ctx.Request.Header.IsHTTP11() {
+		} else if !isHTTP11Request {
 			// Set 'Connection: keep-alive' response header for HTTP/1.0 request.
 			// There is no need in setting this header for http/1.1, since in http/1.1
 			// connections are keep-alive by default.
